@@ -524,7 +524,8 @@ class TriangularMesh(BaseMagnet):
         coll.position = self.position
         coll.orientation = self.orientation
         # pylint: disable=no-member
-        coll.style.update(self.style.as_dict(), _match_properties=False)
+        # a copy: the user defined model3d traces must not be shared with the new Collection
+        coll.style.update(self.style.copy().as_dict(), _match_properties=False)
         return coll
 
     @classmethod
